@@ -101,7 +101,9 @@ def check_c13(tier):
         else:
             V.drift += 1
             V.violation(e2, "the set of indexed files differs from the rules and from the implementation model")
+    nb = c13_binary(V, base)
     shutil.rmtree(base, ignore_errors=True)
+    V.notes["lsp_sessions"] = nb
     V.sample({"root_location": cases[0]["loc"], "excludes": cases[0]["ex"], "fault_mode": cases[0]["fm"], "files_in_tree": len(paths)})
     cov = {"states": meta["distinct"], "transitions": meta["transitions"], "traces_validated_against_impl": len(cases),
            "files_per_tree": len(paths), "exhaustive": True,
@@ -115,6 +117,62 @@ def check_c13(tier):
              "symlinks) and scanned by the real library; the indexed set must equal PyIndexed (root-relative rules)",
         assumptions=["runs as root: permission-denied faults cannot be produced (invalid UTF-8 and dangling symlinks instead)",
                      "exclude patterns limited to the shapes `dir/**` and `**/name.py` (glob crate semantics)"])
+
+
+def c13_binary(V, base):
+    """the configured exclude patterns are those of the WORKSPACE's pyproject.toml: the same tree opened by the real binary at
+    locations whose ANCESTORS carry configuration (or a .git directory) must be indexed identically"""
+    import lsp
+    C.build_server()
+    tree = {"conftest.py": "fx_root", "tests/conftest.py": "fx_tc", "tests/test_a.py": "fx_a", "legacy/test_old.py": "fx_old",
+            "legacy/conftest.py": "fx_lc"}
+    anc_cfg = '[tool.pytest-language-server]\nexclude = ["legacy/*", "tests/**", "**/test_a.py"]\n'
+    variants = [
+        ("plain", {}, None, set(tree.values())),
+        ("ancestor_with_config", {"pyproject.toml": anc_cfg}, None, set(tree.values())),
+        ("ancestor_with_config_and_git_above", {"pyproject.toml": anc_cfg, "../.git/HEAD": "ref: refs/heads/main\n"}, None, set(tree.values())),
+        ("ancestor_config_workspace_other_table", {"pyproject.toml": anc_cfg}, "[tool.black]\nline-length = 100\n", set(tree.values())),
+        ("own_config", {}, '[tool.pytest-language-server]\nexclude = ["legacy/**"]\n', {"fx_root", "fx_tc", "fx_a"}),
+        ("own_config_and_ancestor_config", {"pyproject.toml": '[tool.pytest-language-server]\nexclude = ["tests/**"]\n'},
+         '[tool.pytest-language-server]\nexclude = ["legacy/**"]\n', {"fx_root", "fx_tc", "fx_a"}),
+    ]
+
+    def session(job):
+        n, (name, anc_files, own_cfg, want) = job
+        top = os.path.join(base, "bin%d" % n, "outer", "parent")
+        ws = os.path.join(top, "ws")
+        for rel, fx in tree.items():
+            os.makedirs(os.path.dirname(os.path.join(ws, rel)), exist_ok=True)
+            with open(os.path.join(ws, rel), "w") as fh:
+                fh.write("import pytest\n\n\n@pytest.fixture\ndef %s():\n    return 1\n\n\ndef test_%s(%s):\n    pass\n" % (fx, fx, fx))
+        for rel, text in anc_files.items():
+            pth = os.path.normpath(os.path.join(top, rel))
+            os.makedirs(os.path.dirname(pth), exist_ok=True)
+            with open(pth, "w") as fh:
+                fh.write(text)
+        if own_cfg is not None:
+            with open(os.path.join(ws, "pyproject.toml"), "w") as fh:
+                fh.write(own_cfg)
+        srv = lsp.Server(timeout=30)
+        try:
+            srv.initialize(ws)
+            syms = srv.request("workspace/symbol", {"query": "fx_"}) or []
+            return sorted({x["name"] for x in syms})
+        except (lsp.ServerDied, lsp.Timeout) as e:
+            return {"error": str(e)}
+        finally:
+            srv.close()
+
+    jobs = list(enumerate(variants))
+    for (n, (name, anc_files, own_cfg, want)), r in zip(jobs, lsp.run_parallel(jobs, session, workers=6)):
+        V.count()
+        V.nontriv("binary:" + name)
+        ex = {"location": name, "files_above_the_workspace": sorted(anc_files), "workspace_pyproject": own_cfg, "indexed": r, "expected": sorted(want)}
+        if r is None or isinstance(r, dict):
+            V.violation(ex, "server died or did not answer after scanning the workspace")
+        elif set(r) != want:
+            V.violation(ex, "the set of indexed files depends on what lies ABOVE the workspace root (or the workspace's own exclude patterns are not applied)")
+    return len(jobs)
 
 
 # ------------------------------------------------------------------------------------------- C14
